@@ -1118,6 +1118,55 @@ func ruleSIEClosesOriginBody(c *Ctx, rule string) {
 			}
 		})
 	}
+	// a helper that is handed the origin's response and closes its body (under nil tests only) counts as a close where
+	// it is called
+	onlyNilConds := func(blk *ssa.BasicBlock, skip map[ssa.Value]bool) bool {
+		for _, dc := range controlConds(blk) {
+			if skip[dc.cond] {
+				continue
+			}
+			leaves := condLeaves(dc.cond, dc.onTrue)
+			if len(leaves) == 0 {
+				return false
+			}
+			for _, lf := range leaves {
+				bo, isB := lf.v.(*ssa.BinOp)
+				if !isB || !(isNilConst(bo.X) || isNilConst(bo.Y)) {
+					return false
+				}
+			}
+		}
+		return true
+	}
+	instrsOf(vh, func(in ssa.Instruction) {
+		call, ok := in.(*ssa.Call)
+		if !ok {
+			return
+		}
+		for _, g := range c.P.RepoCallees(call) {
+			if g == vh || len(g.Blocks) == 0 {
+				continue
+			}
+			for pi, p := range g.Params {
+				if !isHTTPResponsePtr(p.Type()) {
+					continue
+				}
+				a := argForParam(&call.Call, g, pi)
+				if a == nil || !c.An.sameCanon(a, respParam) {
+					continue
+				}
+				closesIt := false
+				instrsOf(g, func(i2 ssa.Instruction) {
+					if r, ok := bodyCloseOf(i2); ok && c.An.sameCanon(r, p) && onlyNilConds(i2.Block(), nil) {
+						closesIt = true
+					}
+				})
+				if closesIt {
+					closes = append(closes, in)
+				}
+			}
+		}
+	})
 	pr := c.An.Prune(vh, AssumeKeys(map[string]bool{not304: false}))
 	n := 0
 	bad := ""
